@@ -14,8 +14,20 @@ DEPS = {"syn": "syn", "proc-macro2": "proc_macro2", "quote": "quote", "convert_c
 PANIC_RE = re.compile(r"(?<![A-Za-z0-9_])(panic|assert|assert_eq|assert_ne|unimplemented|todo)!\s*[\(\[{]")
 
 
+def lock_text(repo):
+    """Cargo.lock is git-ignored in this repository: a scratch worktree of it has none, and cargo would then resolve the
+    same versions from the (offline, fixed) registry cache - so the lock file of /repo stands in for it."""
+    for p in (os.path.join(repo, "Cargo.lock"), "/repo/Cargo.lock"):
+        try:
+            with open(p) as f:
+                return f.read()
+        except OSError:
+            continue
+    return ""
+
+
 def lock_versions(repo):
-    txt = open(os.path.join(repo, "Cargo.lock")).read()
+    txt = lock_text(repo)
     out = {}
     for m in re.finditer(r'name = "([^"]+)"\nversion = "([^"]+)"', txt):
         out.setdefault(m.group(1), []).append(m.group(2))
